@@ -517,7 +517,8 @@ def check_C07(ctx):
     rep.rule("M2", "derived max_size_of returns the maximum over align_of::<Self>() and the unit of every field")
     rep.rule("ALIGN", "all four align implementations move by pad_align_to(position of self, unit(T)); writers emit only zero bytes; a path that emits nothing knows the padding is zero")
     rep.rule("POS", "position-tracking wrappers advance by exactly the bytes moved, after success; Serialize::serialize returns the position after the last write")
-    wire_props(ctx, ("full", "eps"), ("W4", "W5-view"), 56)
+    rep.rule("W1", "both readers consume exactly the atoms the writer emits, in every static/selector case (either deserializer consumes exactly the bytes written)")
+    wire_props(ctx, ("full", "eps"), ("W1", "W4", "W5-view"), 56)
     try:
         u, cname = units_universe(ctx)
     except ExportError as ex:
@@ -654,6 +655,23 @@ def check_C16(ctx):
             if not eq:
                 rep.add("LEN", "seriter:%s:success" % kind, "SerIter (%s) can succeed without having established yielded == announced (%s)" % (kind, rows), a[0].loc())
     rep.floor("SerIter/Vec helper pairs compared", n, 2)
+    # LEN on the dispatching impl: every successful path of <SerIter as SerializeInner>::_serialize_inner runs the item
+    # loop over the wrapped iterator (a shortcut that answers from the announced length alone never polls it, so a
+    # mismatch goes unnoticed)
+    nser = 0
+    for t in ts:
+        im = t.ser_impl
+        if im is None or not (im.self_ty[0] == "adt" and im.self_ty[1].endswith("::SerIter")):
+            continue
+        for p in t.paths.get("ser") or []:
+            if p.outcome != "ok":
+                continue
+            nser += 1
+            polled = any(ev[0] == "Loop" and isinstance(ev[1], tuple) and ev[1] and ev[1][0] == "itercount" for ev in p.raw.events)
+            rep.oblige(polled)
+            if not polled:
+                rep.add("LEN", "seriter:dispatch:%s" % p.cond_show(), "SerIter::_serialize_inner has a successful path (%s) on which the wrapped iterator is never polled: the number of items it yields is not compared with the announced length" % (p.cond_show() or "unconditional"), t.loc)
+    rep.floor("successful SerIter writer paths", nser, 1)
     # derived SerType aliases
     expj = json.load(open(os.path.join(common.VERIF, "witness", "wcorpus", "expect.json")))
     m = 0
@@ -783,6 +801,8 @@ def check_C11(ctx):
                              "short reads must be handled by read_exact, whose contract turns a premature end of file into an error")
     n = rules_loader.rule_maplen(u, rep)
     rep.floor("mapping length/offset sites in Deserialize::mmap", n, 2)
+    rep.rule("ALIGN", "the stream reader's align consumes its padding from the backend at once (a cut inside the padding is then a failed read) and both readers move by pad_align_to(position, unit)")
+    align_pair(ctx, ("ReaderWithPos", "SliceWithPos"))
     rep.rule("STORE", "store writes nothing but the serialized stream (one serialize call): bytes no reader consumes would make a cut inside them invisible")
     rules_loader.rule_store(u, rep)
     return ("Static content of 'a strict prefix is never turned into a value': sibling agreement of the byte consumption, error discipline of every read, closed list of ways "
@@ -814,6 +834,7 @@ def check_C08(ctx):
     rep.rule("ARG", "each loader hands deserialize_eps the bytes of the backend at its final place inside the MemCase being built")
     rep.rule("FILL", "copying loaders zero-fill [file_len..capacity) after reading the file and before deserializing")
     rep.rule("MAPLEN", "the mmap loader maps the file from offset 0 for exactly metadata().len() bytes")
+    rep.rule("COPY", "load_mem and load_mmap read the file into a region they allocated themselves (raw allocation / anonymous mapping) and never map the file")
     rep.rule("CAP", "copying loaders allocate file_len + pad_align_to(file_len, K), K a positive power of two equal to the allocation alignment")
     rep.rule("SHAPE", "MemCase(structure, backend) in this order, no Drop impl, Send/Sync bounded by S, backends own their memory through a pointer, heap region alignment 64, no method gives away the structure or the backend")
     rep.rule("FLAGS", "every Flags constant is translated to the mmap_rs flag of the same name")
@@ -829,6 +850,7 @@ def check_C08(ctx):
         sub = Report("C08", ctx.tier)
         n = rules_loader.rule_loader_paths(u, sub, want=("ARG", "FILL"))
         rules_loader.rule_capacity(u, sub)
+        rules_loader.rule_copying_loaders(u, sub)
         rules_loader.rule_memcase_shape(u, sub)
         rules_loader.rule_store(u, sub)
         rules_align.rule_flush_forward(u, sub)
@@ -872,6 +894,8 @@ def check_C09(ctx):
     rep.rule("LEAK-PARTIAL", "deser/ and impls/: a loop that writes droppable values into uninitialised storage (ptr::write / MaybeUninit::write) and can leave early must maintain the length inside the loop or drop the written prefix itself; otherwise a failed load leaks what the elements own")
     npl = rules_loader.rule_partial_leak(u, rep, DESER_SCOPE)
     rep.floor("loops filling uninitialised storage with droppable values", npl, 2)
+    rep.rule("COPY", "load_mem and load_mmap own a private copy of the file (read into their own region, the file itself is never mapped): the backing memory stays unchanged whatever happens to the file")
+    rules_loader.rule_copying_loaders(u, rep)
     na = rules_loader.rule_alloc_layout(u, rep)
     rep.floor("raw allocation -> Vec::from_raw_parts sites in load_mem", na, 1)
     try:
@@ -971,6 +995,8 @@ def check_C14(ctx):
     rules_loader.rule_err_to_ok(u, rep, DESER_SCOPE, errs=rules_err.DESER_ERRS, exclude_fn=rules_err.takes_slice_cursor)
     k = rules_loader.rule_uninit_exposed(u, rep, DESER_SCOPE)
     rep.floor("set_len sites analysed", k, 1)
+    rep.rule("ALIGN", "the stream reader's align reads its padding from the backend (through read_exact) when it is called: a reader failure inside the padding is reported, whatever follows")
+    align_pair(ctx, ("ReaderWithPos",))
     rep.rule("DOUBLE-CLEANUP", "a reader that drops a written prefix by hand holds no guard value whose Drop impl releases the prefix as well")
     kd = rules_loader.rule_double_cleanup(u, rep, DESER_SCOPE + ("epserde/src/deser/mod.rs",))
     rep.floor("functions with manual prefix cleanup", kd, 2)
